@@ -433,6 +433,9 @@ class XsdAttributeGroup(
                     assert isinstance(attr, XsdAnyAttribute)
                     attr.intersection(any_attribute)
                     attr.parent = self
+
+                    # The complete wildcard has the processContents of the local wildcard
+                    attr.process_contents = any_attribute.process_contents
                 else:
                     attributes[None] = any_attribute
 
@@ -645,7 +648,7 @@ class XsdAttributeGroup(
             for k, v in self._attribute_group.items():
                 if v.fixed is not None and k:
                     yield k, v.fixed
-                elif v.default is not None and k:
+                elif v.default is not None and k and v.use != 'prohibited':
                     yield k, v.default
         else:
             for k, v in self._attribute_group.items():
